@@ -24,6 +24,7 @@ sys.path.insert(0, os.path.join(C.VERIF, 'translator'))
 sys.path.insert(0, os.path.join(C.VERIF, 'translator', 'gens'))
 import inventory as INV
 
+DRIVERS = ['Common']   # model driver files this check runs: scopes translator failures to the tables they (and the proofs) import
 TRUSTED = ['the proof is about a model with no shared mutable state (Rws.Concurrent); that the code has none is checked '
            'syntactically (shared-state inventory regenerated from the source on every run) and sampled at run time '
            '(serial vs concurrent responses of the real binary); a data race needing a rare interleaving can escape',
